@@ -6,15 +6,11 @@ C09 algorithm model: `ArrayData::try_new` / `ArrayDataBuilder::build` / `validat
 `arrow-data/src/data.rs`, **check by check as the Rust does it — including what it does
 not check**:
 
-* `validate_values` does nothing for `Union` (TODO in the source): type ids and dense
-  offsets are never looked at;
 * `validate_child_data` compares struct and fixed-size-list child lengths with `len`, not
   with `offset + len` (sparse unions *do* use `offset + len`);
 * `validate_non_nullable` → `NullBuffer::contains` zips the parent mask with the child mask
   from position 0 in 64-bit words, i.e. it ignores the parent offset and truncates to the
   shorter of the two;
-* for `RunEndEncoded`, `check_run_ends` is called *on the run-ends child* and therefore
-  compares the last run end with the child's own `offset + len`, never with the parent's.
 
 `usize` is modelled as `Nat` with explicit `2^64` overflow checks exactly where the Rust
 has `checked_*`/`saturating_*`/`expect`.  Outcomes: `ok`, `err` (any `ArrowError`), `panic`.
@@ -303,17 +299,17 @@ def checkBounds (d : ArrayData) (keys : List Nat) (kw : Nat) (signed : Bool) (di
     | some k => decide (k < 2 ^ 63 ∧ 0 ≤ k ∧ k ≤ (dictLen : Int) - 1)
     | none => false))
 
-/-- `check_run_ends::<T>()`, called on the run-ends child `re` (so `len`/`offset` below are
-the **child's**) -/
-def checkRunEnds (re : ArrayData) (rw : Nat) : Res :=
+/-- `check_run_ends::<T>(len_plus_offset)`, called on the run-ends child `re` with the logical
+`offset + len` of the run-end-encoded parent -/
+def checkRunEnds (re : ArrayData) (rw : Nat) (lpo : Nat) : Res :=
   match re.buffers with
   | b :: _ =>
     if !typedBufferOk re b re.len rw then .err
     else if b.length % rw != 0 then .panic                    -- `typed_data` asserts an empty suffix
     else if !allBelow re.len (runEndOk re rw) then .err
-    else match lastRunEnd re rw, checkedAdd re.len re.offset with
-      | some last, some lpo => errIf (last < lpo)
-      | _, _ => .err
+    else match lastRunEnd re rw with
+      | some last => errIf (last < lpo)
+      | none => .err
   | [] => .err
 
 /-- `ArrayData::validate_values` -/
@@ -337,7 +333,14 @@ def validateValues (d : ArrayData) : Res :=
     match d.buffers, d.children with
     | offs :: _, c :: _ => eachOffset d offs large c.len (fun _ _ => true)
     | _, _ => .err
-  | .union _ _ => .ok                      -- TODO in the Rust source: nothing is checked
+  | .union dense fields =>
+    -- every type id declared; dense offsets inside the selected child
+    match checkedAdd d.len d.offset, d.buffers with
+    | some _, ids :: rest =>
+      let offs := rest.headD []
+      if dense && offs.length % 4 != 0 then .panic            -- `typed_data::<i32>` asserts an empty suffix
+      else errIf (!allBelow d.len (fun i => unionSlotOk fields dense ids offs d.children (d.offset + i)))
+    | _, _ => .err
   | .dict kw signed _ =>
     match d.buffers, d.children with
     | keys :: _, v :: _ =>
@@ -346,7 +349,10 @@ def validateValues (d : ArrayData) : Res :=
     | _, _ => .err
   | .ree rw _ =>
     match d.children with
-    | re :: _ => checkRunEnds re rw
+    | re :: _ =>
+      match checkedAdd d.len d.offset with
+      | some lpo => checkRunEnds re rw lpo
+      | none => .err
     | [] => .err
   | _ => .ok
 
@@ -641,7 +647,7 @@ def typedRun (d : ArrayData) (rw : Nat) : Res :=
     validateData ⟨.ree rw vals.type, len, 0, none, [], [normPrim re rw, buildTree vals]⟩
   | _ => .err
 
-/-- `UnionArray::try_new(fields, type_ids, offsets, children)` — **no child type check** -/
+/-- `UnionArray::try_new(fields, type_ids, offsets, children)` -/
 def typedUnion (d : ArrayData) (dense : Bool) (fields : Fields) : Res :=
   (kidsOk d.children).andThen fun _ =>
   match d.buffers with
@@ -653,6 +659,8 @@ def typedUnion (d : ArrayData) (dense : Bool) (fields : Fields) : Res :=
     if dense && rest.isEmpty then .panic
     else
     (errIf (fields.toList.length != d.children.length)).andThen fun _ =>
+    -- every child has the data type declared by its field
+    (errIf ((d.children.zip fields.toList).any (fun (c, f) => c.type != f.2.1))).andThen fun _ =>
     (if dense then errIf (offs.length != ids.length)
      else errIf (d.children.any (fun c => c.len != ids.length))).andThen fun _ =>
     let lenOf (id : Int) : Option Nat :=
